@@ -51,11 +51,16 @@ impl<R: Read> Iterator for ChunkedChars<R> {
         // Read exactly one UTF-8 codepoint (1..=4 bytes) from the underlying reader.
         // No internal buffering: rely on the outer BufReader and decoder.
         let mut buf = [0u8; 4];
-        // Read first byte
-        if let Err(e) = self.reader.read_exact(&mut buf[..1]) {
-            match e.kind() {
-                io::ErrorKind::UnexpectedEof => return None, // true EOF
-                _ => {
+        // Read first byte. `Ok(0)` is the end of the input; an error the reader reports is an
+        // error whatever its kind. (`read_exact` reports a clean end as `UnexpectedEof`, which
+        // cannot be told from a reader that fails with `UnexpectedEof` itself, e.g. a truncated
+        // compressed stream.)
+        loop {
+            match self.reader.read(&mut buf[..1]) {
+                Ok(0) => return None, // true EOF
+                Ok(_) => break,
+                Err(e) if e.kind() == io::ErrorKind::Interrupted => continue,
+                Err(e) => {
                     self.err.replace(Some(e));
                     return None;
                 }
